@@ -70,23 +70,63 @@ def impl_obs(case):
     return {"valid": bool(valid), "bad": bad}
 
 
-def impl_via_validate_data(case):
-    """Same labelling through validate_data(lineage=True): ValueError iff invalid."""
+def tracklet_partition(nodes, edges):
+    """the documented tracklet partition (docs/tracking.md): join u,v when (u,v) is the only edge
+    leaving u and the only edge entering v"""
+    outd, ind = {}, {}
+    for u, v in edges:
+        outd[u] = outd.get(u, 0) + 1
+        ind[v] = ind.get(v, 0) + 1
+    parent = {n: n for n in nodes}
+
+    def find(x):
+        while parent[x] != x:
+            parent[x] = parent[parent[x]]
+            x = parent[x]
+        return x
+    for u, v in edges:
+        if outd[u] == 1 and ind[v] == 1:
+            parent[find(u)] = find(v)
+    ids = {}
+    return [ids.setdefault(find(n), 100 + len(ids)) for n in nodes]
+
+
+def dag_clean(case):
+    """unique nodes, every edge inside the node list, strictly forward in list position (acyclic),
+    no repeated edge: the other validators pass, so validate_data's verdict is the lineage verdict"""
+    pos = {n: i for i, n in enumerate(case["nodes"])}
+    if len(pos) != len(case["nodes"]):
+        return False
+    seen = set()
+    for u, v in case["edges"]:
+        if u not in pos or v not in pos or pos[u] >= pos[v] or (u, v) in seen:
+            return False
+        seen.add((u, v))
+    return True
+
+
+def impl_via_validate_data(case, cfg=None, with_tracklets=False):
+    """Same labelling through validate_data(lineage=True, …): ValueError iff invalid."""
     import geff_spec
     from geff.validate.data import ValidationConfig, validate_data
 
     nodes = np.asarray(case["nodes"], dtype=np.int64)
+    npm = {"lin": geff_spec.PropMetadata(identifier="lin", dtype="int64")}
+    props = {"lin": {"values": np.asarray(case["labels"], dtype=np.int64), "missing": None}}
+    tnp = {"lineage": "lin"}
+    if with_tracklets:
+        npm["trk"] = geff_spec.PropMetadata(identifier="trk", dtype="int64")
+        props["trk"] = {"values": np.asarray(tracklet_partition(case["nodes"], [tuple(e) for e in case["edges"]]), dtype=np.int64),
+                        "missing": None}
+        tnp["tracklet"] = "trk"
     md = geff_spec.GeffMetadata(
-        geff_version="1.0.0", directed=True,
-        node_props_metadata={"lin": geff_spec.PropMetadata(identifier="lin", dtype="int64")},
-        edge_props_metadata={}, track_node_props={"lineage": "lin"},
+        geff_version="1.0.0", directed=True, node_props_metadata=npm, edge_props_metadata={}, track_node_props=tnp,
     )
     g = {"metadata": md, "node_ids": nodes,
          "edge_ids": np.asarray(case["edges"], dtype=np.int64).reshape(-1, 2),
-         "node_props": {"lin": {"values": np.asarray(case["labels"], dtype=np.int64), "missing": None}},
-         "edge_props": {}}
+         "node_props": props, "edge_props": {}}
     try:
-        validate_data(g, ValidationConfig(lineage=True))
+        validate_data(g, ValidationConfig(**(cfg or {"lineage": True})))
         return "ok"
     except ValueError:
         return "ValueError"
@@ -213,6 +253,7 @@ def run(ck: common.Check):
     if model is None:
         ck.broken.append({"what": "driver Drivers/C14.lean", "detail": drv.broken})
     n_vd = 0
+    n_cfg = 0
     for idx, (c, im) in enumerate(zip(cases, impl)):
         uniq = len(set(c["nodes"])) == len(c["nodes"])
         s_valid, s_bad = spec_oracle(c["nodes"], c["labels"], c["edges"])
@@ -246,7 +287,20 @@ def run(ck: common.Check):
             want = "ok" if s_valid else "ValueError"
             if r != want:
                 ck.fail("C14:validate_data-dispatch", f"validate_data(lineage=True) gave {r}, expected {want}", c, r, want)
+        # every validation config that enables lineage, on graphs where the other validators pass
+        if c["nodes"] and idx % 7 == 0 and n_cfg < (4000 if ck.quick else 40000) and dag_clean(c):
+            want = "ok" if s_valid else "ValueError"
+            for bits in range(16):
+                cfg = {"lineage": True, "graph": bool(bits & 1), "tracklet": bool(bits & 2),
+                       "sphere": bool(bits & 4), "ellipsoid": bool(bits & 8)}
+                n_cfg += 1
+                r = impl_via_validate_data(c, cfg, with_tracklets=True)
+                if r != want:
+                    ck.fail("C14:validate_data-dispatch-config",
+                            f"validate_data({cfg}) on a geff declaring tracklet and lineage ids gave {r}, expected {want}",
+                            {**c, "cfg": cfg}, r, want)
     ck.extra["through_validate_data"] = n_vd
+    ck.extra["through_validate_data_all_configs"] = n_cfg
     ck.assumptions += [
         "networkx weakly_connected_components / DiGraph construction are modelled (component closure), not verified",
         "ids and labels are int64 (the function casts to int64); theorem is over any DecidableEq id type",
@@ -256,6 +310,13 @@ def run(ck: common.Check):
 
 def replay(rp):
     c = rp["case"]
+    if "cfg" in c:
+        s_valid, _ = spec_oracle(c["nodes"], c["labels"], c["edges"])
+        r = impl_via_validate_data(c, c["cfg"], with_tracklets=True)
+        want = "ok" if s_valid else "ValueError"
+        print(json.dumps({"case": c, "impl": r, "expected": want}))
+        print("REPLAY: property holds on this input" if r == want else "REPLAY: property FAILS on this input")
+        return 0 if r == want else 1
     im = impl_obs(c)
     s_valid, s_bad = spec_oracle(c["nodes"], c["labels"], c["edges"])
     print(json.dumps({"case": c, "impl": im, "spec": {"valid": s_valid, "bad": s_bad}}))
